@@ -175,12 +175,10 @@ def rules(ctx, db):
             for op in r.get("ops", []):
                 if "m" in op and is_res(op["m"]):
                     writers.add(f)
-    allowed = {"compio_driver::key::ErasedKey::set_result", "compio_driver::key::ErasedKey::set_waker",
-               "compio_driver::key::ErasedKey::take_result"}
     ctx.floor("R4", "functions writing RawOp.result", len(writers), 3)
     for f in sorted(writers, key=lambda x: x.name):
-        ctx.ob("R4", "result-writer:" + f.name, f.name in allowed,
-               "RawOp.result may be written only by set_result / set_waker / take_result", f)
+        ctx.ob("R4", "result-writer:" + f.name, f.self_adt in ("compio_driver::key::ErasedKey", "compio_driver::key::Key", "compio_driver::key::RawOp"),
+               "RawOp.result is written only by methods of the key types themselves (set_result / set_waker / take_result)", f)
     for f, bb, t in db.callers_of(r"^compio_driver::key::ErasedKey::set_result$"):
         if f.blocks[bb]["cl"]:
             continue
